@@ -1,5 +1,5 @@
 \* C05 quick: simulated [{low 3} {high 3} {low 1}]
-\* run by hand:  cd spec && tlc -workers 8 RunGenStore.tla -config cfg/C05__RunGenStore__simulated_low_3_high_3_low_1_.cfg -simulate num=200 -depth 15 -seed 2   (root module generated by the harness: see the .tla file next to this one; copy it to spec/ first)
+\* run by hand:  cd spec && tlc -workers 8 RunGenStore.tla -config cfg/C05__RunGenStore__simulated_low_3_high_3_low_1_.cfg -simulate num=200 -depth 15 -seed 1   (root module generated by the harness: see the .tla file next to this one; copy it to spec/ first)
 INIT GenInit
 NEXT GenNext
 CONSTANTS
@@ -13,5 +13,9 @@ CONSTANTS
   InitStores <- RInit
   Depth = 14
   EndMarker = TRUE
+  SlotKeys <- RSlotKeys
+  Asc <- RAsc
+  Desc <- RDesc
+  Pairs <- RPairs
 INVARIANT Emit
 CHECK_DEADLOCK FALSE
